@@ -188,6 +188,13 @@ class _Canon(ast.NodeTransformer):
             return ast.Call(node.func, [node.args[0], second], [])
         return node
 
+    def visit_IfExp(self, node: ast.IfExp) -> ast.AST:
+        self.generic_visit(node)
+        # a conditional expression on a literal condition (a flag parameter of a walked helper) is the branch taken
+        if isinstance(node.test, ast.Constant) and isinstance(node.test.value, (bool, int, type(None))):
+            return node.body if node.test.value else node.orelse
+        return node
+
     def visit_UnaryOp(self, node: ast.UnaryOp) -> ast.AST:
         self.generic_visit(node)
         if isinstance(node.op, ast.Not):
